@@ -284,7 +284,7 @@ def run(ck, F, tier):
     ck.assumptions += ['end-to-end equality of decoded P pictures with the H.263 reconstruction is NOT decided', 'candidate geometry beyond the per-index table of C12 D is not decided']
     rule_s(ck, F); rule_l(ck, F); rule_b(ck, F); rule_g(ck, F); rule_u(ck, F)
     s12 = Scoped(ck, 'C12.')
-    for fn in ('a_wrap', 'b_chroma', 'd_candidates', 'e_median', 'f_zero_neighbours'):
+    for fn in ('a_wrap', 'b_chroma', 'd_candidates', 'e_median', 'f_zero_neighbours', 'g_mv_decode'):
         getattr(c12, fn)(s12, F)
     s10 = Scoped(ck, 'C10.')
     c10.rule_c(s10, F)
